@@ -146,3 +146,36 @@ Fixpoint ins_lex {A} (x : list nat * A) (l : list (list nat * A)) : list (list n
   end.
 Definition order_by_digits {A} (jobs : list (list nat * A)) : list (list nat * A) := fold_right ins_lex [] jobs.
 Definition digits_value (ds : list nat) : nat := fold_left (fun a d => 10 * a + d) ds 0.
+
+(* ------------------------------------------------------------------ a long-lived ensemble: calls, failures, leftovers *)
+(* The ensemble keeps ONE evaluator: [ev_next] = the number the next submitted job gets, [ev_left] = jobs of earlier
+   calls that are still in the evaluator (submitted, never gathered nor cancelled).  A call submits one job per member,
+   then takes jobs from the evaluator, in the order [c_order] in which gather() hands them over, until it holds as many
+   jobs as it has members, sorts those by id and returns their outputs - unless a member failed ([c_failed]): then it
+   raises.  The code of /repo gathers everything, calls close() (which cancels whatever is left) and raises afterwards:
+   close_on_failure = true.  close_on_failure = false is the fail-fast variant that raises from inside the gather
+   loop, after [c_stop] jobs, without close(): the jobs not gathered yet stay behind. *)
+Record evst (A : Type) := mkEv { ev_next : Z; ev_left : list (Z * A) }.
+Arguments mkEv {A}. Arguments ev_next {A}. Arguments ev_left {A}.
+
+Fixpoint numbered {A} (base : Z) (xs : list A) : list (Z * A) :=
+  match xs with [] => [] | x :: t => (base, x) :: numbered (base + 1)%Z t end.
+
+Inductive outcome (A : Type) := Returned (ys : list A) | Raised.
+Arguments Returned {A}. Arguments Raised {A}.
+
+Record callin (A : Type) := mkCall { c_xs : list A; c_failed : bool; c_stop : nat; c_order : list (Z * A) }.
+Arguments mkCall {A}. Arguments c_xs {A}. Arguments c_failed {A}. Arguments c_stop {A}. Arguments c_order {A}.
+
+Definition call {A} (close_on_failure : bool) (st : evst A) (c : callin A) : outcome A * evst A :=
+  let n := length (c_xs c) in
+  let nxt := (ev_next st + Z.of_nat n)%Z in
+  if c_failed c
+  then (Raised, mkEv nxt (if close_on_failure then [] else skipn (c_stop c) (c_order c)))
+  else (Returned (map snd (order_by_id (firstn n (c_order c)))), mkEv nxt []).
+
+Fixpoint run_calls {A} (close_on_failure : bool) (st : evst A) (cs : list (callin A)) : list (outcome A) :=
+  match cs with
+  | [] => []
+  | c :: t => fst (call close_on_failure st c) :: run_calls close_on_failure (snd (call close_on_failure st c)) t
+  end.
